@@ -48,14 +48,13 @@ func (s *vkSink) Count(name string, n int)                    { s.cnt[name] += n
 
 // findings which are already reported by TestC18; under native fuzzing they are logged instead of stopping the fuzzer at once.
 var nativeFuzzTolerated = map[string]bool{
-	"parse-version-accepts-negative":                    true,
-	"yaml-invalid-utf8-silently-changed":                true,
-	"yaml-resource-null-document-yields-no-resource":    true,
-	"yaml-tab-led-multiline-string-unreadable":          true,
-	"yaml-space-led-multiline-list-item-corrupted":      true,
-	"yaml-spec-tab-led-multiline-string-unreadable":     true,
-	"yaml-spec-space-led-multiline-list-item-corrupted": true,
-	"version-next-beyond-int64-text-not-parseable":      true,
+	"parse-version-accepts-negative":                 true,
+	"yaml-invalid-utf8-silently-changed":             true,
+	"yaml-resource-null-document-yields-no-resource": true,
+	"yaml-tab-led-multiline-string-unreadable":       true,
+	"yaml-space-led-multiline-list-item-corrupted":   true,
+	SigSpecYAMLLibrary:                               true,
+	"version-next-beyond-int64-text-not-parseable":   true,
 }
 
 type tSink struct{ t *testing.T }
